@@ -9,7 +9,7 @@ VERIF = os.path.dirname(os.path.dirname(os.path.abspath(__file__)))
 REPO = os.environ.get("VERIF_REPO", "/repo")
 COQ = os.path.join(VERIF, "coq")
 BUILD = os.path.join(COQ, "extract", "build")
-DRIVER = os.path.join(BUILD, "driver")
+DRIVER = os.environ.get("VERIF_DRIVER") or os.path.join(BUILD, "driver")
 VENV_PY = "/venv/bin/python"
 DEFAULT_SEED = 20260929
 
